@@ -78,6 +78,16 @@ class Cfg:
         self.countas = [int(x) for x in c.get("countas", "").split(",") if x] if self.ishape == "u" else []
         # count_inputs_as is applied after the closures and replaces the closure of the same kind
         self.ic = [int(x) for x in c.get("ic", "").split(",") if x and int(x) not in self.countas] if self.entry >= 2 else []
+        # Bencher::counter called after input_counter / count_inputs_as ("override an existing counter of the same type"):
+        # the constant replaces the per-input counter of its kind
+        self.bc_late = {}
+        if g("bclate", 0):
+            for t in c.get("bc", "").split(","):
+                if t:
+                    k, v = t.split(":")
+                    self.bc_late[int(k)] = int(v)
+            self.ic = [k for k in self.ic if k not in self.bc_late]
+            self.countas = [k for k in self.countas if k not in self.bc_late]
         self.tsc = g("tsc", 1) != 0
         self.local = self.entry in LOCAL_ENTRIES
         self.eff_T = 1 if self.local else self.T
@@ -917,6 +927,10 @@ def check_c05(an):
             out.append(V("C05", "missing_counter", "counter kind %d has counts but no statistics" % kind))
             continue
         per_sample = rep["uses"][kind]
+        if kind in cfg.bc_late and (per_sample or counts != [cfg.bc_late[kind]]):
+            out.append(V("C05", "constant_counter_not_in_force", "counter kind %d was set to the constant %d after a per-input counter of that kind; the loop recorded %s (per-input counting %s)" % (
+                kind, cfg.bc_late[kind], counts[:8], "still on" if per_sample else "off")))
+            continue
         if per_sample and len(counts) != m:
             out.append(V("C05", "counter_len", "counter kind %d has %d per-sample values for %d samples" % (kind, len(counts), m)))
             continue
